@@ -2,18 +2,21 @@
 C12 — trace views END TO END: OTLP ingest boundary, result paging, the queries behind the views.
 Core Lean only (linked into the `oracle_C12` executable).
 
-Mirrors the code WITH the repairs build/patches/c12-1 … c12-6 (the behaviour before a repair is kept as `…Old`):
+Mirrors the code WITH the repairs build/patches/c12-1 … c12-10 (the behaviour before a repair is kept as `…Old`):
   * pkg/otlp/traces.go            `ProcessTraceIngest` (the loop over ResourceSpans / ScopeSpans / Spans, the
                                    per-resource `service` variable, the span counters),
                                    `spanToJson` (attribute columns first, then the fixed fields; duration 0 for a
                                    span that ends before it starts), `HandleTraceIngestionResponse`
-    pkg/otlp/utils.go             `extractAnyValue` (which AnyValue kinds are an error; nil = no value)
+    pkg/otlp/utils.go             `extractAnyValue` (nil / an AnyValue with no field set = no value; bytes = their
+                                   base64 text; no kind the harness can send is an error any more)
   * pkg/segment/tracing/handler/tracehandler.go
         `ProcessGanttChartRequest`   (the paging loop, the per-record checks in their order)
         `ProcessSearchTracesRequest` (the three SPL queries as functions of the stored records; pages of 50 trace
-                                      ids out of the buckets ordered by trace id)
-        `MakeTracesDependancyGraph`  (paging loop, stop at the first empty page)
-        `ProcessRedTracesIngest`     (paging loop, stop at the first empty page)
+                                      ids out of the buckets ordered by trace id; span counts = `dc(span_id)` per
+                                      status)
+        `MakeTracesDependancyGraph`  (paging loop, stop at the first empty page; `decodeSpans`: a record that does
+                                      not unmarshal into `structs.Span` is skipped)
+        `ProcessRedTracesIngest`     (paging loop, stop at the first empty page; `decodeSpans`)
     their folds / `BuildSpanTree` are the kernels of Model/Trace.lean, reused here.
 
 Conventions
@@ -25,7 +28,10 @@ Conventions
     (documents posted to index `traces` by another protocol; OTLP documents always have all of them).
   * numbers ≥ 2^63 are stored as float64 (`storedNum`); 2^64 − d with d ≤ 1024 rounds to 2^64, which no longer
     fits the uint64 fields the handlers unmarshal into (`poison`).  Since the repair of the duration no OTLP span
-    produces such a record (`Props.C12.otlp_record_never_poison`); documents of other protocols still can.
+    produces such a record (`Props.C12.otlp_record_never_poison`); documents posted to index `traces` through
+    another protocol (ES bulk …) still can, and their `duration` can also be negative, fractional or a string
+    (`Rec.durBad`).  Every view skips such a record (the span tree always did; the dependency graph and RED since
+    the repair c12-7 — before, they dropped the WHOLE window: `depOld`, `redCollectOld`).
   * the search engine is a parameter of the paging loops: it answers `(from, size)` with
     `(recs.drop from).take size` for ONE list `recs` (newest ingest request first).  That the real engine does so
     is checked by the correspondence suite `tracee2e`, not proved.
@@ -90,8 +96,13 @@ def getKV {β : Type} (m : List (String × β)) (k : String) : Option β :=
   | [] => none
   | (k', v) :: r => if k' == k then some v else getKV r k
 
-/-- `extractAnyValue`: bytes values and AnyValues whose value is unset are an error; a KeyValue that carries no
-AnyValue at all (nil pointer) gives the nil value -/
+/-- base64 (standard alphabet, padded) of the bytes fb ff fe 01 the harness sends as `bytes_value` (both the
+alphabet and the padding show) -/
+def bytesText : String := "+//+AQ=="
+
+/-- `extractAnyValue`: a KeyValue that carries no AnyValue at all (nil pointer) and an AnyValue none of whose fields
+is set (the OTLP "empty" value) give the nil value; bytes give their base64 text (the OTLP JSON mapping).  `none` =
+error (the `default:` branch — no value the harness can send reaches it any more). -/
 def attrVal : AVal → Option JVal
   | .str s => some (.str s)
   | .int i => some (.num i)
@@ -99,14 +110,24 @@ def attrVal : AVal → Option JVal
   | .half k => some (.half k)
   | .arr => some .arr
   | .kvl => some .kvl
+  | .bytes => some (.str bytesText)
+  | .empty => some .null
+  | .noValue => some .null
+
+/-- BEFORE the repair c12-10 bytes values and empty AnyValues were an error: the WHOLE span was refused (counted in
+the partial-success message) -/
+def attrValOld : AVal → Option JVal
   | .bytes => none
   | .empty => none
-  | .noValue => some .null
+  | v => attrVal v
+
+/-- the span was refused before the repair c12-10 -/
+def spanRejectedOld (sp : OSpan) : Bool := sp.attrs.any (fun kv => (attrValOld kv.2).isNone)
 
 /-- BEFORE the repair `extractAnyValue(nil)` dereferenced the nil pointer.  Attributes are converted in order and
 the first one that cannot be converted decided: error return (bytes, unset value) or panic (no AnyValue). -/
 def spanPanicsOld (sp : OSpan) : Bool :=
-  match sp.attrs.find? (fun kv => kv.2 == .noValue || (attrVal kv.2).isNone) with
+  match sp.attrs.find? (fun kv => kv.2 == .noValue || (attrValOld kv.2).isNone) with
   | some (_, .noValue) => true
   | _ => false
 
@@ -154,13 +175,17 @@ structure Rec where
   status : Option String
   /-- every other column, as the text the harness prints (sorted by key) -/
   tags : List (String × String) := []
+  /-- `some txt`: the stored `duration` is not a natural number at all (negative, fractional, a string — only
+  documents of other protocols); `txt` = its text as read back; `dur` is 0 then -/
+  durBad : Option String := none
 deriving Repr, DecidableEq, Inhabited
 
 /-- a JSON number as the segment stores it: exact below 2^63, float64 above -/
 def storedNum (v : Nat) : Nat := if v < 2 ^ 63 then v else (Dy.ofNat v).floor
 
-/-- the stored `duration` does not fit a uint64 -/
-def poison (r : Rec) : Bool := r.dur ≥ 2 ^ 64
+/-- the stored `duration` does not fit a uint64: the record does not unmarshal into `structs.Span` /
+`structs.GanttChartSpan` -/
+def poison (r : Rec) : Bool := r.dur ≥ 2 ^ 64 || r.durBad.isSome
 
 def strField (d : List (String × JVal)) (k : String) : Option String :=
   match getKV d k with
@@ -256,9 +281,29 @@ def recsOfReq : Req → List Rec
   | .otlp rs => (ingest rs).docs.map docToRec
   | .raw evs => evs
 
+/-- the text of a stored duration (a float is rendered with `strconv.FormatFloat(v, 'f', -1, 64)`: 2^64 gives
+18446744073709552000) -/
+def durText (r : Rec) : String :=
+  match r.durBad with
+  | some t => t
+  | none => if r.dur == 2 ^ 64 then "18446744073709552000" else toString r.dur
+
+/-- the document carries a STRING (not a number) as its duration -/
+def isStrDur (r : Rec) : Bool :=
+  match r.durBad with
+  | some t => t.any Char.isAlpha
+  | none => false
+
+/-- pkg/segment/writer/segstore.go `consolidateColumnTypes` (per block; the datasets of the harness are one block): a
+column that holds numbers AND a string that is not a number is rewritten as strings — EVERY duration of the block
+is then returned as a JSON string, which none of the span structs of the views can take.  Known finding
+`trace-views/string-in-duration-column-hides-every-span-of-the-block`. -/
+def consolidate (recs : List Rec) : List Rec :=
+  if recs.any isStrDur then recs.map (fun r => { r with durBad := some (durText r) }) else recs
+
 /-- the order in which a `*` search returns the records: newest ingest request first, ingest order within
 a request -/
-def records (reqs : List Req) : List Rec := reqs.reverse.flatMap recsOfReq
+def records (reqs : List Req) : List Rec := consolidate (reqs.reverse.flatMap recsOfReq)
 
 /-! ## result paging -/
 
@@ -375,8 +420,23 @@ structure TraceRow where
   end_ : Nat
 deriving Repr, DecidableEq
 
-/-- BEFORE the repair — one trace id of the page: `.error` = the whole request answered 500 (more than one root
-start / end time), `.ok none` = not listed, `.ok (some row)` = listed -/
+def errStatus : String := "STATUS_CODE_ERROR"
+
+/-- `… | stats dc(span_id) as count by status, trace_id`, the buckets of one trace added up: the number of distinct
+(status, span id) pairs — a span delivered twice (a retried export) is counted once; records without `status` form
+a bucket of their own -/
+def spanCount (rs : List Rec) : Nat := (uniq (rs.map (fun r => (r.status, r.sid)))).length
+
+/-- the bucket of status ERROR: the distinct span ids with that status -/
+def errCount (rs : List Rec) : Nat := (uniq ((rs.filter (fun r => r.status == some errStatus)).map (·.sid))).length
+
+/-- BEFORE the repair c12-9 the query was `stats count as count by status, trace_id`: stored RECORDS were counted,
+a re-delivered span twice -/
+def spanCountOld (rs : List Rec) : Nat := rs.length
+def errCountOld (rs : List Rec) : Nat := (rs.filter (fun r => r.status == some errStatus)).length
+
+/-- BEFORE the repair c12-5 — one trace id of the page: `.error` = the whole request answered 500 (more than one
+root start / end time), `.ok none` = not listed, `.ok (some row)` = listed -/
 def searchRowOld (recs : List Rec) (t : String) : Except Unit (Option TraceRow) :=
   let rs := ofTrace recs t
   let roots := rs.filter (fun r => r.pid == some "")
@@ -388,8 +448,7 @@ def searchRowOld (recs : List Rec) (t : String) : Except Unit (Option TraceRow) 
     if winStart * 1000000 > st || winEnd * 1000000 < en then .ok none else
     match distinctStr (roots.filterMap (·.svc)), distinctStr (roots.filterMap (·.name)) with
     | [sv], [nm] =>
-      .ok (some { trace := t, svc := sv, op := nm, count := rs.length,
-                  errs := (rs.filter (fun r => r.status == some "STATUS_CODE_ERROR")).length, start := st, end_ := en })
+      .ok (some { trace := t, svc := sv, op := nm, count := spanCount rs, errs := errCount rs, start := st, end_ := en })
     | _, _ => .ok none
   | _, _ => .error ()
 
@@ -411,6 +470,10 @@ def searchPage (recs : List Rec) (p : Nat) : List TraceRow := (pageIds recs p).f
 
 /-- the whole listing -/
 def searchAll (recs : List Rec) : List TraceRow := (traceIds recs).filterMap (searchRow recs)
+
+/-- the row BEFORE the repair c12-9 (stored records counted) -/
+def searchRowCountOld (recs : List Rec) (t : String) : Option TraceRow :=
+  (searchRow recs t).map (fun row => { row with count := spanCountOld (ofTrace recs t), errs := errCountOld (ofTrace recs t) })
 
 /-- BEFORE the repair a page answered 500 as soon as one of its traces had two root start / end times -/
 def searchPageOld (recs : List Rec) (p : Nat) : Option (List TraceRow) :=
@@ -441,33 +504,47 @@ inductive DepOut
   | ok (m : List ((String × String) × Nat))
 deriving Repr, DecidableEq
 
-/-- the fold of MakeTracesDependancyGraph over the collected spans (`nil`: a response could not be unmarshalled
-into `[]*structs.Span`) -/
-def depOf (recs : List Rec) : DepOut :=
-  if recs.any poison then .nil
-  else
-    let sv := svcTable recs
-    .ok ((depGraph (toSpans recs)).map (fun e => ((sv.getD e.1.1 "", sv.getD e.1.2 ""), e.2)))
+/-- the records that unmarshal into `structs.Span` -/
+def readable (recs : List Rec) : List Rec := recs.filter (fun r => !poison r)
 
-/-- MakeTracesDependancyGraph: pages through the spans of the window (stops at the first empty page) and folds
-over all of them -/
-def dep (page : Nat) (recs : List Rec) : DepOut :=
-  if recs.any poison then .nil
-  else depOf (pageLoop (fun acc r => acc ++ [r]) page page false recs (recs.length + 1) 0 [])
+/-- `decodeSpans` inside the paging loops: the records of a page are decoded one by one, a record that does not fit
+a span is skipped (logged), every other one is appended -/
+def collectStep (acc : List Rec) (r : Rec) : List Rec := if poison r then acc else acc ++ [r]
 
-/-- BEFORE the repair: ONE search request without `size`, i.e. the first `page` (100) records only -/
-def depFirstPageOld (page : Nat) (recs : List Rec) : DepOut := depOf (recs.take page)
+/-- what the paging loops of MakeTracesDependancyGraph / ProcessRedTracesIngest collect (they stop at the first page
+without RECORDS, readable or not) -/
+def collectSpans (page : Nat) (recs : List Rec) : List Rec :=
+  pageLoop collectStep page page false recs (recs.length + 1) 0 []
 
-/-- the spans ProcessRedTracesIngest collects; `none`: a page could not be unmarshalled (the function returns) -/
-def redCollect (page : Nat) (recs : List Rec) : Option (List Rec) :=
-  if recs.any poison then none
-  else some (pageLoop (fun acc r => acc ++ [r]) page page false recs (recs.length + 1) 0 [])
+/-- the fold of MakeTracesDependancyGraph over the collected spans -/
+def depFold (rs : List Rec) : DepOut :=
+  let sv := svcTable rs
+  .ok ((depGraph (toSpans rs)).map (fun e => ((sv.getD e.1.1 "", sv.getD e.1.2 ""), e.2)))
 
-def redE2E (page : Nat) (recs : List Rec) : List (String × RedRow) :=
-  match redCollect page recs with
-  | none => []
-  | some rs =>
-    let sv := svcTable rs
-    (red (toSpans rs)).map (fun row => (sv.getD row.service "", row))
+/-- the dependency graph of the window: the fold over every readable record -/
+def depOf (recs : List Rec) : DepOut := depFold (readable recs)
+
+/-- MakeTracesDependancyGraph: pages through the spans of the window and folds over all of them -/
+def dep (page : Nat) (recs : List Rec) : DepOut := depFold (collectSpans page recs)
+
+/-- BEFORE the repair c12-7 a page was unmarshalled at once into `[]*structs.Span`: ONE record that does not fit made
+the function return nil — no graph for the whole window -/
+def depOld (_page : Nat) (recs : List Rec) : DepOut := if recs.any poison then .nil else depFold recs
+
+/-- BEFORE the repair c12-2: ONE search request without `size`, i.e. the first `page` (100) records only -/
+def depFirstPageOld (page : Nat) (recs : List Rec) : DepOut :=
+  if recs.any poison then .nil else depFold (recs.take page)
+
+/-- the spans ProcessRedTracesIngest collects -/
+def redCollect (page : Nat) (recs : List Rec) : List Rec := collectSpans page recs
+
+/-- BEFORE the repair c12-7: `none` = a page could not be unmarshalled, the function returned without writing a row -/
+def redCollectOld (_page : Nat) (recs : List Rec) : Option (List Rec) := if recs.any poison then none else some recs
+
+def redOf (rs : List Rec) : List (String × RedRow) :=
+  let sv := svcTable rs
+  (red (toSpans rs)).map (fun row => (sv.getD row.service "", row))
+
+def redE2E (page : Nat) (recs : List Rec) : List (String × RedRow) := redOf (redCollect page recs)
 
 end SigModel.TraceE2E
